@@ -279,7 +279,8 @@ func checkC18(c *checkCtx) {
 				if p.Kind == "retry" {
 					hasRetry = true
 				}
-				if p.Kind == "hedge" {
+				if p.Kind == "hedge" || p.Kind == "timeout" || p.Kind == "fallback" {
+					// the answer may be replaced before the retry policy sees it (a timeout firing as the response arrives)
 					hasRetry = false
 					break
 				}
